@@ -66,6 +66,24 @@ def add_constant_term(spec, draw):
     return spec
 
 
+def add_clip_term(spec, draw):
+    """add maxi(x, c) / mini(x, c) with a numeric bound c (and once with another variable) to one differential equation"""
+    ops = sorted(o for nt in spec["ntypes"].values() for o in nt["ops"])
+    o = ops[draw(st.integers(0, len(ops) - 1))]
+    od = spec["ops"][o]
+    des = [e for e in od["eqs"] if e[1]]
+    states = [v[0] for v in od["vars"] if v[1] == "state"]
+    if not des or not states:
+        return spec
+    e = des[draw(st.integers(0, len(des) - 1))]
+    x = ["var", draw(st.sampled_from(states))]
+    bound = ["num", draw(st.sampled_from([0.2, -0.5, 1.0]))]
+    other = ["var", draw(st.sampled_from(states))] if draw(st.integers(0, 3)) == 0 else bound
+    term = ["call", draw(st.sampled_from(["maxi", "mini"])), x, other]
+    e[2] = ["bin", draw(st.sampled_from(["+", "-"])), e[2], ["bin", "*", ["num", 0.5], term]]
+    return spec
+
+
 class VfArm(Arm):
     name = "vf"
     budget = {"quick": 400, "thorough": 5000}
@@ -81,6 +99,8 @@ class VfArm(Arm):
             spec = base_spec(draw, small=(be == "fortran"))
             if draw(st.integers(0, 2)) == 0:
                 spec = add_constant_term(spec, draw)
+            if draw(st.integers(0, 3)) == 0:
+                spec = add_clip_term(spec, draw)
             vec = draw(st.booleans()) if be != "fortran" else False
             rm = RefModel(spec)
             return {"spec": spec, "cfg": {"backend": be, "vectorize": vec,
